@@ -13,4 +13,7 @@ CONTROLS = [
          expect=r"function/one-arg-per-non-kwargs-parameter"),
     dict(name="BENIGN: class emitter materialises the parameter items first (same elements, same order)", benign=True,
          edits=[("cdd/class_/emit.py", '                            (intermediate_repr.get("params") or OrderedDict()).items(),', '                            list((intermediate_repr.get("params") or OrderedDict()).items()),')]),
+    dict(name="set_default_doc turns the NoneStr default of the caller's param dict into None (seed C04_e shape)",
+         edits=[("cdd/shared/defaults_utils.py", "        # if _param[\"default\"] == NoneStr: _param[\"default\"] = None\n", "        if _param[\"default\"] == \"```(None)```\":\n            _param[\"default\"] = None\n")],
+         expect=r"set_default_doc/ensures\[5\]"),
 ]
